@@ -88,12 +88,14 @@ Fixpoint suppress (t : tree) : tree :=
     end
   end.
 
-(* Tree.collapse_basal_bifurcation: `to_keep.edge.length += to_del_edge.length` inside a bare
-   try/except: when either is None nothing is added (a defined to_del length is lost) *)
+(* Tree.collapse_basal_bifurcation (since fix 1fc3f136):
+     if to_del_edge.length is not None:
+         if to_keep.edge.length is None: to_keep.edge.length = to_del_edge.length
+         else: try: to_keep.edge.length += to_del_edge.length except: pass     (float + float never raises) *)
 Definition addlen_try (keep del : option Z) : option Z :=
-  match keep, del with
-  | Some a, Some b => Some (a + b)
-  | _, _ => keep
+  match del with
+  | None => keep
+  | Some d => match keep with None => Some d | Some k => Some (k + d) end
   end.
 
 Definition collapse_basal (t : tree) : tree * bool :=
